@@ -3,6 +3,7 @@
 package kcp
 
 import (
+	"bytes"
 	"encoding/binary"
 	"fmt"
 	"hash/crc32"
@@ -398,6 +399,7 @@ func vfC05(c *hx.Ctx) {
 	}
 	vfC05core(c)
 	vfC05frag(c)
+	vfC05sessfrag(c)
 	vfC05fec(c)
 	vfAdversarialBFS(c, "C05:", hx.Pick(c, 3, 4), false)
 }
@@ -790,6 +792,126 @@ func vfC05fec(c *hx.Ctx) {
 	}
 	u.Samples = append(u.Samples, map[string]any{"packet": "seqid=paws-1 type=0xf2 size=0xffff len=9", "decoder": "3/2"})
 	u.EndStatesN = u.Executions
+	if len(u.Violations) > 0 {
+		u.Exhaustive = false
+	}
+	u.WallS = time.Since(start).Seconds()
+	c.AddUnit(u)
+}
+
+// vfC05sessfrag: forged fragment counts against a REAL session and its Read: every sequence of 1-3 in-order PUSH datagrams
+// with frg from {0,1,2,255} and payloads of 1000 or mss bytes (so that a "message" assembled from them exceeds the 1500-byte
+// staging buffer of Read), sent to the dialled and to the accepted session of an established pair, then read by the
+// application with buffers smaller than, equal to and larger than such a message. Oracle: no panic anywhere (Read runs
+// under the session mutex), what is read is a prefix of the forged payloads in order.
+func vfC05sessfrag(c *hx.Ctx) {
+	if c.Skip("session-fragments") || (c.Of > 1 && c.Shard != 3%c.Of) {
+		return
+	}
+	start := time.Now()
+	frgs := []uint8{0, 1, 2, 255}
+	sizes := []int{1000, IKCP_MTU_DEF - IKCP_OVERHEAD}
+	bufs := []int{512, 1500, 4096}
+	u := &hx.Unit{Name: "session-fragments", Kind: "enum", Exhaustive: true, Params: map[string]any{"frg_alphabet": frgs, "datagrams": "1..3", "payload_sizes": sizes, "read_buffers": bufs, "targets": "dialled, accepted"}}
+	viol := func(sig, msg string) {
+		for _, v := range u.Violations {
+			if v.Signature == sig {
+				v.Count++
+				return
+			}
+		}
+		if len(u.Violations) < 6 {
+			u.Violations = append(u.Violations, c.NewViolation("session-fragments", u.Params, sig, msg, ""))
+		}
+	}
+	var seqs [][]uint8
+	var rec func(cur []uint8)
+	rec = func(cur []uint8) {
+		if len(cur) > 0 {
+			seqs = append(seqs, append([]uint8{}, cur...))
+		}
+		if len(cur) == 3 {
+			return
+		}
+		for _, f := range frgs {
+			rec(append(cur, f))
+		}
+	}
+	rec(nil)
+	var cases, big int64
+	for _, seq := range seqs {
+		for _, size := range sizes {
+			for _, rb := range bufs {
+				for _, accepted := range []bool{false, true} {
+					if time.Now().After(c.Deadline) {
+						u.Exhaustive, u.CapHit = false, "internal deadline"
+						break
+					}
+					cases++
+					if len(seq)*size > 1500 {
+						big++
+					}
+					label := fmt.Sprintf("frg %v, %d-byte payloads, %d-byte read buffer, accepted=%v", seq, size, rb, accepted)
+					var msg string
+					cf := vfPairCfg{SDS: -1, Stream: true, NoDelay: [4]int{1, 10, 2, 1}, Writes: []int{10}, WritesBack: []int{10}, ReadBuf: 64, Pool: vrt.PoolPlain, HorizonS: 20}
+					out := vrt.Run(vrt.Config{Chooser: vfDefaultChooser{}, TimerEarlyCost: -1, Horizon: 20 * time.Second, MaxSteps: 3000000}, func() {
+						p := vfPairSetup(cf)
+						p.traffic()
+						p.mu.Lock()
+						srv := p.server
+						p.mu.Unlock()
+						if srv == nil {
+							msg = "setup: no accepted session"
+							return
+						}
+						target, sock, from := p.client, p.csock, net.Addr(p.laddr)
+						if accepted {
+							target, sock, from = srv, p.lsock, net.Addr(p.caddr)
+						}
+						target.mu.Lock()
+						sn, una := target.kcp.rcv_nxt, target.kcp.snd_una
+						target.mu.Unlock()
+						var want []byte
+						for i, f := range seq {
+							data := vfPayload(5, size, i*size)
+							want = append(want, data...)
+							sock.inject(from, wire.EncodeSegment(wire.Seg{Conv: vfConv, Cmd: wire.CmdPush, Frg: f, Wnd: 32, Sn: sn + uint32(i), Una: una, Data: data}, -1))
+						}
+						vrt.Sleep(20 * time.Millisecond)
+						var got []byte
+						buf := make([]byte, rb)
+						for {
+							target.SetReadDeadline(vrt.Now().Add(30 * time.Millisecond))
+							n, err := target.Read(buf)
+							if err != nil {
+								break
+							}
+							got = append(got, buf[:n]...)
+							if len(got) > len(want) {
+								break
+							}
+						}
+						if len(got) > len(want) || !bytes.Equal(got, want[:len(got)]) {
+							msg = fmt.Sprintf("the application read %d bytes that are not a prefix of the %d forged payload bytes", len(got), len(want))
+						}
+						p.client.Close()
+						p.listener.Close()
+						p.csock.Close()
+						p.lsock.Close()
+						SystemTimedSched.Close()
+					})
+					switch {
+					case out.Status == vrt.Panicked:
+						viol("C05:panic-after-forged-fragment-counts:session:"+vfPanicSite(out.Stack), label+": "+out.Fail+"\n"+out.Stack)
+					case msg != "":
+						viol("C05:session-read-after-forged-fragment-counts", label+": "+msg)
+					}
+				}
+			}
+		}
+	}
+	u.Executions, u.NonTrivial, u.EndStatesN = cases, big, cases
+	u.Notes = append(u.Notes, fmt.Sprintf("%d cases, %d of them with a forged message larger than Read's 1500-byte staging buffer", cases, big))
 	if len(u.Violations) > 0 {
 		u.Exhaustive = false
 	}
